@@ -451,7 +451,8 @@ class AudioThread(threading.Thread):
   def pause(self):
     """ Pauses the audio. """
     with self.lock:
-      self.go.clear()
+      if not self.halting: # A stopping thread shouldn't be paused
+        self.go.clear()
 
   def play(self):
     """ Resume playing the audio. """
